@@ -105,6 +105,8 @@ class EventOverflow(BaseException):
 class Run:
     """One execution of the real traversal for a spec; collects the event stream."""
     max_events = 60000
+    max_spin = 2000          # picks of one worker without any event in between (see install: spin guard); observed on
+                             # terminating runs: at most 30 for graphs of up to 53 nodes (recorded per run as spin_seen)
     overflow = False
 
     def __init__(self, spec, trace_internal=True):
@@ -283,6 +285,8 @@ class Run:
         return k[0] if k else "c" + str(self.classes[node.bridged_form])
 
     def ev(self, *fields):
+        self.spin_seen = max(getattr(self, "spin_seen", 0), getattr(self, "spin", 0))
+        self.spin = 0
         self.events.append(list(fields))
         if len(self.events) > self.max_events:
             self.overflow = True
@@ -298,6 +302,28 @@ class Run:
         self._saved = (m.TestRunner.run_test_task, m.node_mod.door, m.TestWorker.get_session,
                        m.TestGraph.__dict__["parse_node_from_object"], asyncio.sleep)
         self._saved_parse = m.TestGraph.parse_paths_to_object_roots
+        # spin guard: between two events (test start/end, state request, back-off sleep, exit) a worker runs loop iterations
+        # only; their number is bounded (C02: resume_within_bound / lazy_loop_terminates), and every iteration that changes the
+        # path picks a child or a parent - a worker that keeps picking without ever producing an event spins without yielding
+        # (the other workers are never resumed): reported like an event overflow instead of hanging the check
+        self._saved_picks = (m.TestNode.pick_child, m.TestNode.pick_parent)
+        real_pick_child, real_pick_parent = self._saved_picks
+        run.spin = 0
+
+        def pick_child(node, worker):
+            run.spin += 1
+            if run.spin > max(run.max_spin, 40 * len(run.graph.nodes)):
+                run.overflow = True
+                raise EventOverflow()
+            return real_pick_child(node, worker)
+
+        def pick_parent(node, worker):
+            run.spin += 1
+            if run.spin > max(run.max_spin, 40 * len(run.graph.nodes)):
+                run.overflow = True
+                raise EventOverflow()
+            return real_pick_parent(node, worker)
+        m.TestNode.pick_child, m.TestNode.pick_parent = pick_child, pick_parent
 
         async def run_test_task(runner, node):
             wid = node.params["nets"]
@@ -502,6 +528,7 @@ class Run:
         m.worker_mod.remote.wait_for_login = self._saved_login
         m.TestWorker._session_cache = {}
         m.TestGraph.parse_paths_to_object_roots = self._saved_parse
+        m.TestNode.pick_child, m.TestNode.pick_parent = self._saved_picks
         m.graph_mod.asyncio = asyncio
         self._runner_mod.asyncio = self._runner_asyncio
 
@@ -936,6 +963,8 @@ def run_case(spec, driver, monitors=MONITORS, max_virtual=200000, run_cls=None):
     res["n_exec"] = kinds.get("start", 0)
     res["foreign_sessions"] = list(getattr(r, "foreign_sessions", []))[:5]
     res["excluded_runs"] = list(getattr(r, "excluded_runs", []))[:5]
+    res["spin_seen"] = getattr(r, "spin_seen", 0)       # most picks of one worker between two events
+    res["graph_nodes"] = len(getattr(r.graph, "nodes", []))
     # states removed during the run (state control `unset` requests): "<object>:<state>" -> workers that removed it
     res["unset_by"] = {}
     for e in r.events:
